@@ -9,8 +9,6 @@ def nontrivial(se):
 def run(res):
     # the window arithmetic of qos/qos.go (translated on every run) and the PopQos reservation loop at API level
     try:
-        if not __import__("os").path.exists(vlib.VERIF + "/checks/C06_qos.ready"):
-            raise ImportError("C06_qos is being adapted to the F49 repair")
         import C06_qos
         sub = C06_qos.run_qos(res)
         res.cov["qos_api_level"] = {k: (sub.get(k) if isinstance(sub, dict) else None) for k in ("evaluations", "distinct_nontrivial")} if sub else {}
